@@ -57,6 +57,19 @@ def main(tier):
         if p.returncode != 0:
             raise vlib.Infra("nodex wire failed: " + p.stdout[-800:])
         parts.append(f)
+        # peer messages into the real listeners of a running node (a child process per crash)
+        f = os.path.join(work, "handlers.ndjson")
+        p = vlib.sh([nx, "handlers", str(sd), f], timeout=3000, check=False)
+        if p.returncode != 0:
+            raise vlib.Infra("nodex handlers failed: " + p.stdout[-800:])
+        hl = [json.loads(x) for x in open(f)]
+        if not hl or hl[-1].get("variant") != "summary" or hl[-1]["index"] < 300:
+            raise vlib.Infra("nodex handlers: no summary line / too few cases: %s" % (hl[-1:] or ""))
+        with open(f, "w") as out:
+            for x in hl:
+                x["kind"], x["slow"] = x.get("topic", ""), x.get("hang", False)
+                out.write(json.dumps(x) + "\n")
+        parts.append(f)
         keep = ("e", "kind", "path", "variant", "equal", "keyEq", "keyPrefix", "segEq", "segPrefix", "inRange", "belongs", "accepted", "panic", "slow", "critical", "unknown", "position", "readBack", "nextBlock")
         recs, full = [], []
         with open(os.path.join(d, "trace.ndjson"), "w") as out:
@@ -88,6 +101,11 @@ def main(tier):
                 why = "panic" if e["panic"] else "hang" if e["slow"] else "unknown-field-accepted" if (e.get("unknown") and e["accepted"]) else "sample-refused"
                 key = "decode:%s:%s" % (e["kind"], why)
                 what = "decoder %s: %s (%s) %s" % (e["kind"], why, e["variant"], e.get("msg", "")[:200])
+            elif e["e"] == "handler":
+                site = next((x for x in e.get("msg", "").split(" <- ") if "." in x and not x.startswith(("panic", "[signal"))), "?")
+                key = "handler:%s:%s" % ("hang" if e.get("hang") else "panic", site)
+                what = ("a %s message derived from a genuine '%s' (%s) %s the node's real %s listener: %s; bytes %s"
+                        % (e["topic"], e["base"], e["variant"], "hangs" if e.get("hang") else "kills", e["topic"], e.get("msg", "")[:300], e.get("hex", "")[:200]))
             else:
                 key = "wire:unknown-field-in:%s" % e.get("where", "?")
                 what = ("a block message with an unknown field in %s is accepted and committed, but what the node stored cannot be read back (readBack=%s nextBlock=%s): %s"
@@ -104,11 +122,12 @@ def main(tier):
                     "constants": {"Keys": "every pair of tuples of up to 2 segments of up to 2 bytes over {0,1,2}", "Digest": "every pair of 5-field messages over 3 values per field"},
                     "guards_confirmed_necessary": guards, "traces_validated_against_impl": 1, "trace_lines": len(recs), "trace_lines_accepted": consumed,
                     "lines_by_kind": count, "digest_kinds": kinds, "violation_classes": {k: len(x) for k, x in classes.items()},
-                    "known_findings_reproduced": [k for k, _ in v.known], "samples": [x for x in full if x["e"] == "wire"][:3]}
+                    "known_findings_reproduced": [k for k, _ in v.known], "samples": [x for x in full if x["e"] == "wire"][:3],
+                    "handler_cases_injected": hl[-1]["index"], "handler_cases_fatal": len(hl) - 1}
         vlib.write_evidence(PID, tier, "model_checking", coverage, time.time() - t0, len(v.violations),
                             ["digest injectivity is checked field by field (every field of every kind, found by reflection), not for arbitrary pairs of messages and not across kinds",
                              "key components up to 255 bytes as the property states; a component of 256 bytes or more wraps the length byte (Keys.tla G_OneByteFits)",
-                             "the decoder clause (no panic / hang on arbitrary bytes) is outside what a TLA+ model can decide; it is exercised by seeded mutation only"])
+                             "the decoder / handler clause (no panic / hang) is outside what a TLA+ model can decide: it is exercised by seeded mutation of the decoders' input and by structurally incomplete and adversarially framed peer messages injected into the real inbox listeners of a running node"])
         print("C19 %s: design %d+%d pairs; %s lines of facts from the real code validated; classes %s" % (tier, rk.distinct, rd.distinct, count, {k: len(x) for k, x in classes.items()}))
         return v.exit_code()
     finally:
